@@ -24,6 +24,7 @@ import (
 	"time"
 
 	"github.com/ohler55/ojg/asm"
+	"github.com/ohler55/ojg/jp"
 	"github.com/ohler55/ojg/sen"
 )
 
@@ -55,11 +56,10 @@ type caseOut struct {
 	Text string         `json:"text"`
 	// PlanUnchanged observations: String() of the executed Plan object before the first and after the last Execute,
 	// the executed object run once more on root2, and a freshly built plan on root2
-	Root2    map[string]any `json:"root2"`
-	Text0    string         `json:"text0"`
-	Text1    string         `json:"text1"`
-	AltSame  run            `json:"alt_same"`
-	AltFresh run            `json:"alt_fresh"`
+	Text0    string `json:"text0"`
+	Text1    string `json:"text1"`
+	AltSame  run    `json:"alt_same"`
+	AltFresh run    `json:"alt_fresh"`
 }
 
 func main() {
@@ -332,9 +332,6 @@ func one(c caseIn) caseOut {
 	if fail == nil && p != nil {
 		out.Text0 = planText(p)
 	}
-	defer func() {
-		out.Root2 = c.Root2
-	}()
 	for i := 0; i < 3; i++ {
 		if fail != nil {
 			out.Runs = append(out.Runs, *fail)
@@ -384,17 +381,69 @@ func one(c caseIn) caseOut {
 	if same(out.Simp) {
 		out.Simp = run{Eq: 1}
 	}
+	// the two runs on the second root: only their agreement matters; identical observations are grouped
+	if out.AltSame.R != "skip" {
+		a, _ := json.Marshal(run{R: out.AltSame.R, Root: out.AltSame.Root})
+		b, _ := json.Marshal(run{R: out.AltFresh.R, Root: out.AltFresh.Root})
+		if string(a) == string(b) {
+			out.AltSame = run{R: out.AltSame.R, M: out.AltSame.M}
+			out.AltFresh = run{Eq: 1}
+		}
+	}
 	return out
 }
 
-// planText is Plan.String(); a panic while printing is reported as text
+// planText is the print form of a plan, Plan.Simplify() (what Plan.String() writes), rendered canonically: object
+// members sorted (String() writes them in Go map order, which is not a change of the plan). A jp.Expr or *asm.Fn that
+// sits inside an uncompiled list is marked: String() would write it as a list of fragments / a struct.
 func planText(p *asm.Plan) (s string) {
 	defer func() {
 		if x := recover(); x != nil {
-			s = fmt.Sprintf("<String panics: %v>", x)
+			s = fmt.Sprintf("<Simplify panics: %v>", x)
 		}
 	}()
-	return p.String()
+	var sb strings.Builder
+	canon(&sb, p.Simplify())
+	return sb.String()
+}
+
+func canon(sb *strings.Builder, v any) {
+	switch t := v.(type) {
+	case []any:
+		sb.WriteByte('[')
+		for i, e := range t {
+			if i > 0 {
+				sb.WriteByte(' ')
+			}
+			canon(sb, e)
+		}
+		sb.WriteByte(']')
+	case map[string]any:
+		keys := make([]string, 0, len(t))
+		for k := range t {
+			keys = append(keys, k)
+		}
+		sort.Strings(keys)
+		sb.WriteByte('{')
+		for i, k := range keys {
+			if i > 0 {
+				sb.WriteByte(' ')
+			}
+			fmt.Fprintf(sb, "%q:", k)
+			canon(sb, t[k])
+		}
+		sb.WriteByte('}')
+	case string:
+		fmt.Fprintf(sb, "%q", t)
+	case jp.Expr:
+		fmt.Fprintf(sb, "<expr %s>", t.String())
+	case *asm.Fn:
+		sb.WriteString("<fn ")
+		canon(sb, t.Simplify())
+		sb.WriteByte('>')
+	default:
+		fmt.Fprintf(sb, "%T(%v)", v, v)
+	}
 }
 
 func rebuilt(raw []any, fresh func() map[string]any) (rs, rp run, text string) {
